@@ -116,35 +116,7 @@ pub fn solve_real_lp_problem_clarabel(lp: &LinearModel) -> Result<LpSolution<f64
         .iter()
         .map(|name| solution.value_of(name).unwrap_or(f64::NAN))
         .collect::<Vec<_>>();
-    let satisfied = lp.constraints().iter().all(|constraint| {
-        let (lhs, scale) = constraint
-            .coefficients()
-            .iter()
-            .zip(&values)
-            .fold((0.0, 0.0_f64), |(sum, scale), (coefficient, value)| {
-                (sum + coefficient * value, scale + (coefficient * value).abs())
-            });
-        // relative to the right-hand side, with a small allowance for the
-        // round-off of the products themselves
-        let tolerance = 1e-6 * (1.0 + constraint.rhs().abs()) + 1e-12 * scale;
-        match constraint.constraint_type() {
-            crate::math::Comparison::LessOrEqual | crate::math::Comparison::Less => {
-                lhs <= constraint.rhs() + tolerance
-            }
-            crate::math::Comparison::GreaterOrEqual | crate::math::Comparison::Greater => {
-                lhs >= constraint.rhs() - tolerance
-            }
-            crate::math::Comparison::Equal => (lhs - constraint.rhs()).abs() <= tolerance,
-        }
-    }) && lp.variables().iter().zip(&values).all(|(name, value)| {
-        let (lower, upper) = match lp.domain().get(name).map(|variable| variable.get_type()) {
-            Some(VariableType::Real(lower, upper)) => (*lower, *upper),
-            Some(VariableType::NonNegativeReal(lower, upper)) => (lower.max(0.0), *upper),
-            _ => (f64::NEG_INFINITY, f64::INFINITY),
-        };
-        let tolerance = 1e-6 * (1.0 + value.abs());
-        value.is_finite() && *value >= lower - tolerance && *value <= upper + tolerance
-    });
+    let satisfied = crate::solvers::common::point_satisfies_model(lp, &values);
     if !satisfied {
         return Err(SolverError::Other(
             "Clarabel returned a point that violates the model".to_string(),
